@@ -1426,6 +1426,86 @@ class _Gen:
             z["gateway"] = self.pick(names)
         return z, {"direct": names, "nested": [], "hosts": [m[1] for m in z["members"] if m[0] == "h"]}
 
+    def directional_leaf(self):
+        """A leaf zone with >= 2 members in which the route between any two members differs from the route of the opposite
+        direction in an observable way: every declared route has >= 2 links or a split-duplex link, or the two directions
+        are declared separately with links of their own.  Used as the transit zone of `transit()`."""
+        kind = self.pick(["full", "full", "floyd", "star", "star"])
+        z = {"name": self.name("z"), "kind": kind, "members": self.members(2, 4), "links": [], "routes": []}
+        names = [m[1] for m in z["members"]]
+
+        def dlinks():
+            style = self.pick(["two", "three", "sd", "sd+1"])
+            if style in ("two", "three"):
+                return self.links(z, 2 if style == "two" else 3)
+            nm = self.name("l")
+            z["links"].append({"name": nm, "lat": lat_of(self.pick([0, 1, 3, 8])), "policy": 2})
+            res = [[nm, self.pick([1, 2])]]
+            return res + self.links(z, 1) if style == "sd+1" else res
+        if kind == "full":
+            for a in range(len(names)):
+                for b in range(a + 1, len(names)):
+                    if self.draw(st.booleans()):
+                        z["routes"].append({"src": names[a], "dst": names[b], "links": dlinks(), "sym": True})
+                    else:     # two one-way routes over different links (1 link each is enough to tell them apart)
+                        z["routes"].append({"src": names[a], "dst": names[b], "links": self.links(z, self.i(1, 2)), "sym": False})
+                        z["routes"].append({"src": names[b], "dst": names[a], "links": self.links(z, self.i(1, 2)), "sym": False})
+        elif kind == "floyd":
+            for j in range(1, len(names)):
+                z["routes"].append({"src": names[j], "dst": names[self.i(0, j - 1)], "links": dlinks(), "sym": True})
+        else:
+            for nm in names:
+                if self.draw(st.booleans()):
+                    z["routes"].append({"src": nm, "dst": None, "gw_src": None, "gw_dst": None, "links": dlinks(), "sym": True})
+                else:
+                    z["routes"].append({"src": nm, "dst": None, "gw_src": None, "gw_dst": None, "links": self.links(z, 1), "sym": False})
+                    z["routes"].append({"src": None, "dst": nm, "gw_src": None, "gw_dst": None, "links": self.links(z, 1), "sym": False})
+        z["routes"] = list(self.draw(st.permutations(z["routes"])))
+        return z, {"direct": names, "nested": [], "hosts": [m[1] for m in z["members"] if m[0] == "h"]}
+
+    def transit(self):
+        """A shortest-path zone over sub-zones in which some pairs of sub-zones are only connected THROUGH another sub-zone
+        (zone-level multi-hop A -> M -> B) that is entered by one gateway and left by another one, the route between these
+        two gateways inside M being directional (label transit-two-gateways)."""
+        kinds = ["floyd", "floyd", "floyd"]
+        if not self.opts["dijkstra_single_link"]:      # Dijkstra zones crash on this class while their finding is open
+            kinds += ["dijkstra", "dijkstracache"]
+        kind = self.pick(kinds)
+        z = {"name": self.name("z"), "kind": kind, "members": [], "links": [], "routes": []}
+        m_d, m_info = self.directional_leaf()
+        self.zinfo[m_d["name"]] = (m_d, m_info)
+        outer = []
+        for _ in range(self.i(2, 3)):
+            d, info = self.zone(3)          # leaf zones (depth 3 = no further nesting), gateways are direct members
+            outer.append((d, info))
+        order = [(m_d, m_info)] + outer
+        order = list(self.draw(st.permutations(order)))      # creation order of the sub-zones (= vertex ids in the zone)
+        for d, _ in order:
+            z["members"].append(["z", d])
+        gws = list(self.draw(st.permutations(m_info["direct"])))
+        for j, (d, info) in enumerate(outer):
+            gm = gws[j % len(gws)] if j < 2 else self.pick(gws)       # the first two neighbours use different gateways of M
+            go = self.pick(info["direct"])
+            k = self.i(1, 3)
+            if self.draw(st.booleans()):
+                a, b = ((d["name"], go), (m_d["name"], gm)) if self.draw(st.booleans()) else ((m_d["name"], gm), (d["name"], go))
+                z["routes"].append({"src": a[0], "dst": b[0], "gw_src": a[1], "gw_dst": b[1], "links": self.links(z, k), "sym": True})
+            else:     # two one-way zone routes; the way back may use yet another gateway of M
+                gm2 = self.pick(gws)
+                z["routes"].append({"src": d["name"], "dst": m_d["name"], "gw_src": go, "gw_dst": gm, "links": self.links(z, k), "sym": False})
+                z["routes"].append({"src": m_d["name"], "dst": d["name"], "gw_src": gm2, "gw_dst": self.pick(info["direct"]),
+                                    "links": self.links(z, self.i(1, 3)), "sym": False})
+        z["routes"] = list(self.draw(st.permutations(z["routes"])))
+        hosts = [h for _, i in order for h in i["hosts"]]
+        first = []
+        for x in range(len(outer)):
+            for y in range(len(outer)):
+                if x != y and outer[x][1]["hosts"] and outer[y][1]["hosts"]:
+                    first.append([self.pick(outer[x][1]["hosts"]), self.pick(outer[y][1]["hosts"])])
+        info = {"direct": [], "nested": [g_ for _, i in order for g_ in i["direct"]], "hosts": hosts, "first_pairs": first}
+        self.zinfo[z["name"]] = (z, info)
+        return z, info
+
     def gw(self, info):
         """a gateway for a child zone: a direct member, or (labelled class) one nested in a sub-zone"""
         if info["nested"] and (not info["direct"] or (self.opts["nested_gw"] and self.i(0, 1) == 0)):
@@ -1642,8 +1722,13 @@ def platforms(draw, nested_gw=False, dijkstra_single_link=True, dragonfly_one_ch
                     "dragonfly_one_chassis": dragonfly_one_chassis})
     world = {"links": [], "routes": [], "bypass": []}
     tops = []
-    if g.i(0, 9) == 0:
+    first_pairs = []
+    shape = g.i(0, 9)
+    if shape == 0:
         tops.append(g.cluster(1, zone_leaves=True))     # a cluster of small zones alone in the platform
+    elif shape <= 3:
+        tops.append(g.transit())                        # zone-level transit through a sub-zone with two gateways
+        first_pairs = tops[0][1]["first_pairs"]
     else:
         ntop = g.i(1, 3)
         for _ in range(ntop):
@@ -1668,7 +1753,8 @@ def platforms(draw, nested_gw=False, dijkstra_single_link=True, dragonfly_one_ch
     else:
         idx = st.integers(0, len(hosts) - 1)
         pairs = [[hosts[a], hosts[b]] for a, b in draw(st.lists(st.tuples(idx, idx), min_size=10, max_size=50))]
-    pairs = [p for p in pairs if p[0] != p[1] or p[0] not in g.noself]
+    pairs = first_pairs + [p for p in pairs if p not in first_pairs]
+    pairs = [p for p in pairs if p[0] != p[1] or p[0] not in g.noself][:60]
     case = {"zones": [d for d, _ in tops], "links": world["links"], "routes": world["routes"], "bypass": world["bypass"],
             "pairs": pairs, "dump": True}
     return case
